@@ -236,6 +236,9 @@ impl Run {
         *self.rule.lock().unwrap() = r.to_string();
     }
     pub fn bound(&self, k: &str, v: String) {
+        if std::env::var("VERIF_TIMING").is_ok() {
+            eprintln!("[{:8.1} s] {}", self.start.elapsed().as_secs_f64(), k);
+        }
         self.sh.lock().unwrap().bounds.push((k.to_string(), v));
     }
     pub fn assume(&self, a: &str) {
@@ -316,7 +319,8 @@ impl Run {
             for t in 0..nthreads {
                 let slot = &slots[t];
                 let (next, running, f) = (&next, &running, &f);
-                s.spawn(move || {
+                // (a roomy stack: some oracles recurse once per path op, and paths reach 10^5 ops)
+                let _ = std::thread::Builder::new().stack_size(1 << 30).spawn_scoped(s, move || {
                     let mut local = Local::new();
                     // this thread's kernel id, so that the watchdog can read its CPU time
                     let tid: u64 = std::fs::read_link("/proc/thread-self").ok().and_then(|p| p.file_name().and_then(|n| n.to_str().and_then(|n| n.parse().ok()))).unwrap_or(0);
@@ -338,7 +342,7 @@ impl Run {
                     }
                     self.merge(local);
                     running.fetch_sub(1, Ordering::SeqCst);
-                });
+                }).expect("spawn worker");
             }
             let (slots, running) = (&slots, &running);
             s.spawn(move || {
